@@ -502,7 +502,15 @@ func (store dbStore) LoadValidators(height int64) (*types.ValidatorSet, error) {
 			return nil, err
 		}
 
-		vs.IncrementProposerPriority(tmmath.SafeConvertInt32(height - lastStoredHeight)) // mutate
+		// The set in force at `height` was derived from the stored one by one
+		// IncrementProposerPriority(1) call per block (see updateState). A single
+		// call with the height difference is not equivalent: priorities are
+		// re-scaled and centred only once per call, so the result (including the
+		// proposer) can differ whenever the priority window grows beyond
+		// 2*totalVotingPower while rotating, e.g. shortly after a validator set change.
+		for i := int64(0); i < height-lastStoredHeight; i++ {
+			vs.IncrementProposerPriority(1) // mutate
+		}
 		vi2, err := vs.ToProto()
 		if err != nil {
 			return nil, err
